@@ -174,7 +174,7 @@ package errbase
 //@   ensures result == fullNameT(typeof(err))
 
 //@ func getTypeDetails
-//@   props C17 C02 C04
+//@   props C17 C02 C04 C15 C11
 //@   requires err != nil
 //@   ensures typeis(err, *opaqueLeaf) ==> result0 == err.(*opaqueLeaf).details.OriginalTypeName && result1 == err.(*opaqueLeaf).details.ErrorTypeMark.FamilyName && result2 == err.(*opaqueLeaf).details.ErrorTypeMark.Extension
 //@   ensures typeis(err, *opaqueLeafCauses) ==> result0 == err.(*opaqueLeafCauses).details.OriginalTypeName && result1 == err.(*opaqueLeafCauses).details.ErrorTypeMark.FamilyName && result2 == err.(*opaqueLeafCauses).details.ErrorTypeMark.Extension
@@ -524,7 +524,7 @@ package errbase
 //@ unfold foldSD(e, acc) = e == nil ? acc : foldSD(cause1(e), fillOf(sdOf(e), acc))
 
 //@ func GetSafeDetails
-//@   props C03 C12
+//@   props C03 C12 C15 C11
 //@   requires err != nil
 //@   defines sdOf(err)
 //@   ensures result.OriginalTypeName == (typeis(err, *opaqueLeaf) ? err.(*opaqueLeaf).details.OriginalTypeName : (typeis(err, *opaqueLeafCauses) ? err.(*opaqueLeafCauses).details.OriginalTypeName : (typeis(err, *opaqueWrapper) ? err.(*opaqueWrapper).details.OriginalTypeName : fullNameT(typeof(err)))))
